@@ -273,7 +273,7 @@ func TestC05(t *testing.T) {
 	}
 	bound := vk.Pick(run, 2, 3)
 	run.Set("deviation_bound", bound)
-	dl := vk.NewDeadline(vk.Pick(run, 12*time.Minute, 150*time.Minute))
+	dl := vk.NewDeadline(vk.Pick(run, 12*time.Minute, 45*time.Minute))
 	const fromH = 5
 	type cfg struct {
 		m      uint64
